@@ -47,15 +47,22 @@ Denote(pr, prov) ==
 
 CallsOf(calls, path) == SelectSeq(calls, LAMBDA c : c.path = path)
 
-\* a parameter of node i that is fed by an upstream node and also has a default
-HasEarlyStart(pr, prov, i) ==
+\* Node i may start early: one of its parameters is fed by an upstream node and ALSO has another
+\* source (default, binding, run-time value).  An early start re-triggers everything downstream,
+\* so "exactly once" is claimed for nodes with no early start in their own upstream cone.
+EarlyHere(pr, prov, i) ==
   \E k \in 1..Len(pr.nodes[i].inputs) : LET p == pr.nodes[i].inputs[k] IN
        UpstreamOK(pr, prov, p) /\ (NodeHasDefault(pr.nodes[i], p) \/ EffBoundHas(pr, p) \/ p \in DOMAIN prov)
+RECURSIVE HasEarlyStart(_, _, _)
+HasEarlyStart(pr, prov, i) ==
+  \/ EarlyHere(pr, prov, i)
+  \/ \E k \in 1..Len(pr.nodes[i].inputs) : LET p == pr.nodes[i].inputs[k] IN
+        UpstreamOK(pr, prov, p) /\ HasEarlyStart(pr, prov, FirstProducer(pr, p))
 
 C01(job) ==
   LET pr == job.prog
       prov == ProvidedMap(job)
-      r == RunProg(pr, "", job.provided, EmptyMap, <<>>, job.mode)
+      r == RunProg(pr, "", job.provided, World0, job.mode)
       den == Denote(pr, prov)
   IN [ completes |-> r.status = "completed",
        values    |-> FilterOut(pr, r.vals, <<"**">>) = den,
@@ -79,9 +86,217 @@ C01Aux(job) ==
        lastargs |-> [n \in {pr.nodes[i].name : i \in can} |->
                         CallArgs(DenArgs(pr, prov, NodeByName(pr, n)))] ]
 
+(***************************************************************************)
+(* Frames: every (sub)graph of a program with the path under which its     *)
+(* runs are logged.                                                        *)
+(***************************************************************************)
+RECURSIVE AllFrames(_, _)
+AllFrames(pr, prefix) ==
+  {[path |-> prefix, prog |-> pr]} \cup
+  UNION {AllFrames(pr.nodes[i].sub, Path(prefix, pr.nodes[i].name)) : i \in GraphIdx(pr)}
+FrameProg(frames, path) == (CHOOSE f \in frames : f.path = path).prog
+
+RunOf(job) == RunProg(job.prog, "", job.provided, World0, job.mode)
+Positions(calls, frame, node) == {k \in 1..Len(calls) : calls[k].frame = frame /\ calls[k].node = node}
+MaxOf(S) == CHOOSE x \in S : \A y \in S : y <= x
+
+(***************************************************************************)
+(* C03 -- gate routing, as a monitor on the call log of each frame.        *)
+(* A start of a gated node is justified by some controlling gate g:        *)
+(*   - g's most recent decision before that start names the node, or       *)
+(*   - g is default-open and has not run yet in this run.                  *)
+(* A gate and its targets never start in the same step.                    *)
+(***************************************************************************)
+Justified(pr, calls, k) ==
+  LET c == calls[k]
+      gs == ControlledBy(pr, c.node)
+  IN gs = {} \/ \E i \in gs : LET g == pr.nodes[i]
+         prior == {j \in Positions(calls, c.frame, g.name) : j < k}
+         decided == {j \in prior : calls[j].dec # NoDec}
+     IN IF decided = {} THEN g.default_open /\ prior = {}
+        ELSE DecSelects(g, calls[MaxOf(decided)].dec, c.node)
+
+GateFirst(pr, calls, k) ==      \* no target shares a step with a controlling gate
+  LET c == calls[k] IN
+  \A i \in ControlledBy(pr, c.node) :
+     \A j \in Positions(calls, c.frame, pr.nodes[i].name) : calls[j].step # c.step
+
+\* with closed-by-default gates only, the executed targets are exactly the ones some decision selected
+AllClosed(pr) == \A i \in Gates(pr) : ~pr.nodes[i].default_open
+SelectedEver(pr, calls, frame, n) ==
+  \E i \in ControlledBy(pr, n) : \E j \in Positions(calls, frame, pr.nodes[i].name) :
+       calls[j].dec # NoDec /\ DecSelects(pr.nodes[i], calls[j].dec, n)
+
+C03(job) ==
+  LET r == RunOf(job)
+      frames == AllFrames(job.prog, "")
+  IN [ justified |-> \A k \in 1..Len(r.calls) : Justified(FrameProg(frames, r.calls[k].frame), r.calls, k),
+       gatefirst |-> \A k \in 1..Len(r.calls) : GateFirst(FrameProg(frames, r.calls[k].frame), r.calls, k),
+       exact     |-> \A f \in frames : AllClosed(f.prog) =>
+                        \A i \in NodeIdx(f.prog) : LET n == f.prog.nodes[i].name IN
+                           (ControlledBy(f.prog, n) # {} /\ Positions(r.calls, f.path, n) # {})
+                               => SelectedEver(f.prog, r.calls, f.path, n) ]
+
+(***************************************************************************)
+(* C17 -- ordering signals, as a monitor on the call log.  A production of *)
+(* name x is a successful invocation of a node that lists x as output.     *)
+(* (Failed invocations end the run, so every logged call but possibly the  *)
+(* failing ones of the last step completed.)                               *)
+(***************************************************************************)
+ProducersOf(pr, x) == {pr.nodes[i].name : i \in Producers(pr, x)}
+ProdsBefore(pr, calls, frame, x, k) ==
+  Cardinality({j \in 1..(k-1) : calls[j].frame = frame /\ calls[j].node \in ProducersOf(pr, x)})
+
+WaitJustified(pr, calls, k) ==
+  LET c == calls[k]
+      nd == NodeByName(pr, c.node)
+      mine == {j \in Positions(calls, c.frame, c.node) : j < k}
+  IN \A w \in Names(nd.wait_for) :
+       /\ ProdsBefore(pr, calls, c.frame, w, k) >= 1
+       /\ mine # {} => ProdsBefore(pr, calls, c.frame, w, k) > ProdsBefore(pr, calls, c.frame, w, MaxOf(mine))
+       /\ \A j \in 1..Len(calls) :      \* never in the same step as a producer of w
+             (calls[j].frame = c.frame /\ calls[j].node \in ProducersOf(pr, w) /\ calls[j].node # c.node)
+                 => calls[j].step # c.step
+
+C17(job) ==
+  LET r == RunOf(job)
+      frames == AllFrames(job.prog, "")
+      prov == ProvidedMap(job)
+  IN [ waits |-> \A k \in 1..Len(r.calls) :
+                    LET pr == FrameProg(frames, r.calls[k].frame)
+                        nd == NodeByName(pr, r.calls[k].node)
+                    IN \* a provided value under the awaited name also counts as available (top frame)
+                       (r.calls[k].frame = "" /\ \E w \in Names(nd.wait_for) : w \in DOMAIN prov)
+                       \/ WaitJustified(pr, r.calls, k) ]
+
+(***************************************************************************)
+(* C16 -- scoping.  Upper bound on what may execute with entry points:     *)
+(* the entry nodes and everything reachable over DECLARED dependencies     *)
+(* (data by name from ANY producer, gate -> target, producer -> waiter).   *)
+(***************************************************************************)
+DeclEdges(pr) ==
+  {<<i, j>> \in NodeIdx(pr) \X NodeIdx(pr) :
+      \/ Names(pr.nodes[i].outputs) \cap (Names(pr.nodes[j].inputs) \cup Names(pr.nodes[j].wait_for)) # {}
+      \/ (IsGate(pr.nodes[i]) /\ pr.nodes[j].name \in Targets(pr, pr.nodes[i]))}
+Downstream(pr) == IF pr.entry = <<>> THEN NodeIdx(pr)
+                  ELSE ReachFrom(DeclEdges(pr), {IdxOf(pr, pr.entry[k]) : k \in 1..Len(pr.entry)})
+
+C16(job) ==
+  LET r == RunOf(job)
+      pr == job.prog
+      vals == FilterOut(pr, r.vals, job.select)
+      eff == EffSelect(pr, job.select)
+  IN [ scope   |-> \A k \in 1..Len(r.calls) : r.calls[k].frame = "" =>
+                        IdxOf(pr, r.calls[k].node) \in Downstream(pr),
+       keys    |-> DOMAIN vals \subseteq Outputs(pr),
+       selonly |-> (eff # Unset /\ eff # <<"**">>) => DOMAIN vals \subseteq Names(eff),
+       nosent  |-> \A k \in DOMAIN vals : vals[k] # Sent ]
+
+(***************************************************************************)
+(* C11 -- partial results of a failed run: every value completed in an     *)
+(* earlier step is present; nothing of the failing node or of what is      *)
+(* downstream of it; every returned value was produced by a completed      *)
+(* node or supplied by the caller under a declared output name.            *)
+(***************************************************************************)
+C11(job) ==
+  LET r == RunOf(job)
+      pr == job.prog
+      prov == ProvidedMap(job)
+      vals == FilterOut(pr, r.vals, job.select)
+      done == SelectSeq(r.done, LAMBDA d : d.frame = "")
+      top == SelectSeq(r.calls, LAMBDA c : c.frame = "")
+      failstep == IF top = <<>> THEN 0 ELSE top[Len(top)].step
+      wanted(o) == EffSelect(pr, job.select) \in {Unset, <<"**">>} \/ o \in Names(EffSelect(pr, job.select))
+  IN IF r.status # "failed" \/ r.err.kind # "body" THEN [na |-> TRUE]
+     ELSE [ produced |-> \A k \in DOMAIN vals :
+                           \/ k \in DOMAIN prov
+                           \/ \E j \in 1..Len(done) : k \in Names(NodeByName(pr, done[j].node).outputs),
+            earlier  |-> \A j \in 1..Len(done) :
+                           (done[j].step < failstep /\ ~IsGraph(NodeByName(pr, done[j].node))) =>
+                              \A o \in DataOutputs(NodeByName(pr, done[j].node)) : wanted(o) => o \in DOMAIN vals ]
+
+(***************************************************************************)
+(* C04 -- loops.  Reference semantics: the equivalent SEQUENTIAL loop,      *)
+(* executed in program order with one environment (no supersteps, no       *)
+(* versions).  job.meta describes the loop template instance:              *)
+(*   body   sequence of body node names b1..bm (b1 is the gate's target)   *)
+(*   gate   name of the gate, exit = name of an exit node or "~none"       *)
+(*   shape  "while" (gate first) | "dowhile" (body first: the gate waits   *)
+(*          on the signal emitted by bm)                                   *)
+(*   entry  index of the body node at which execution enters (1 = normal)  *)
+(*   frame  path of the graph that contains the loop ("" = top level)      *)
+(***************************************************************************)
+EnvArgs(pr, env, nd) == [k \in 1..Len(nd.inputs) |->
+     <<nd.inputs[k], PairGet(nd.pmap, nd.inputs[k]),
+       IF nd.inputs[k] \in DOMAIN env THEN env[nd.inputs[k]]
+       ELSE IF EffBoundHas(pr, nd.inputs[k]) THEN EffBoundVal(pr, nd.inputs[k])
+       ELSE NodeDefaultVal(nd, nd.inputs[k])>>]
+
+RECURSIVE PutAll(_, _, _)
+PutAll(env, outs, k) == IF k > Len(outs) THEN env ELSE PutAll(Put(env, outs[k][1], outs[k][2]), outs, k + 1)
+ExecSeq(pr, env, n) == LET nd == NodeByName(pr, n) IN PutAll(env, NodeOuts(nd, EnvArgs(pr, env, nd)), 1)
+
+\* ref state: [env, cnt (node -> executions), trace (seq of envs)]
+RefExec(pr, rs, n) == LET e == ExecSeq(pr, rs.env, n) IN
+  [rs EXCEPT !.env = e, !.cnt = Put(rs.cnt, n, Get(rs.cnt, n, 0) + 1), !.trace = Append(rs.trace, e)]
+RECURSIVE RefBody(_, _, _, _)
+RefBody(pr, rs, body, i) == IF i > Len(body) THEN rs ELSE RefBody(pr, RefExec(pr, rs, body[i]), body, i + 1)
+
+RECURSIVE RefLoop(_, _, _, _, _)
+RefLoop(pr, meta, rs, k, fuel) ==      \* k = number of gate evaluations so far
+  LET g == NodeByName(pr, meta.gate)
+      d == Decide(g, RawDecision(g, k + 1))
+      rs1 == [rs EXCEPT !.cnt = Put(rs.cnt, g.name, k + 1)]
+  IN IF fuel = 0 THEN [rs EXCEPT !.cut = TRUE]
+     ELSE IF DecSelects(g, d, meta.body[1]) THEN RefLoop(pr, meta, RefBody(pr, rs1, meta.body, 1), k + 1, fuel - 1)
+     ELSE IF meta.exit # None /\ DecSelects(g, d, meta.exit) THEN RefExec(pr, rs1, meta.exit)
+     ELSE rs1
+
+WhileRef(pr, meta, env0, fuel) ==
+  LET rs0 == [env |-> env0, cnt |-> EmptyMap, trace |-> <<env0>>, cut |-> FALSE]
+      rs1 == IF meta.shape = "dowhile" THEN RefBody(pr, rs0, meta.body, 1)
+             ELSE IF meta.entry > 1 THEN RefBody(pr, rs0, meta.body, meta.entry)
+             ELSE rs0
+  IN RefLoop(pr, meta, rs1, 0, fuel)
+
+LoopNodes(meta) == Names(meta.body) \cup {meta.gate} \cup (IF meta.exit = None THEN {} ELSE {meta.exit})
+
+C04(job) ==
+  LET r == RunOf(job)
+      frames == AllFrames(job.prog, "")
+      meta == job.meta
+      pr == FrameProg(frames, meta.frame)
+      env0 == PairsToMap(meta.seed)
+      ref == WhileRef(pr, meta, env0, 40)
+      outs == {o \in Outputs(pr) : o \in DOMAIN ref.env /\ ref.env[o] # Sent}
+      cnt(n) == Cardinality(Positions(r.calls, meta.frame, n))
+      fin == r.status = "completed"
+      topvals == FilterOut(job.prog, r.vals, <<"**">>)
+  IN [ bounded  |-> r.steps <= job.prog.max_iter,
+       outcome  |-> r.status = "completed" \/ (r.status = "failed" /\ r.err.kind = "infinite"),
+       counts   |-> fin => \A n \in LoopNodes(meta) : cnt(n) = Get(ref.cnt, n, 0),
+       values   |-> (fin /\ meta.frame = "") => [o \in outs |-> ref.env[o]] = topvals,
+       nomore   |-> \A n \in LoopNodes(meta) : cnt(n) <= Get(ref.cnt, n, 0),
+       prefix   |-> meta.frame = "" => \A o \in DOMAIN topvals :
+                        \E i \in 1..Len(ref.trace) : o \in DOMAIN ref.trace[i] /\ ref.trace[i][o] = topvals[o] ]
+
+C04Aux(job) ==
+  LET frames == AllFrames(job.prog, "")
+      meta == job.meta
+      pr == FrameProg(frames, meta.frame)
+      ref == WhileRef(pr, meta, PairsToMap(meta.seed), 40)
+  IN [ cnt |-> ref.cnt,
+       env |-> [o \in {o \in Outputs(pr) : o \in DOMAIN ref.env /\ ref.env[o] # Sent} |-> ref.env[o]] ]
+
 \* dispatch used by the Predict_* configurations
 L1(prop, job) == CASE prop = "C01" -> C01(job)
+                   [] prop = "C03" -> C03(job)
+                   [] prop = "C04" -> C04(job)
+                   [] prop = "C17" -> C17(job)
+                   [] prop = "C16" -> C16(job)
+                   [] prop = "C11" -> C11(job)
                    [] OTHER -> [none |-> TRUE]
 Aux(prop, job) == CASE prop = "C01" -> C01Aux(job)
+                    [] prop = "C04" -> C04Aux(job)
                     [] OTHER -> [none |-> TRUE]
 =======================================================================
